@@ -310,6 +310,34 @@ let rec show_sval (v : sval) : string =
       "(struct_variant " ^ hex e ^ " " ^ ns i ^ " " ^ hex vn ^ " " ^ ns len ^ fields fs ^ ")"
   | SFail -> "fail"
 
+let hint_name = function
+  | HBool -> "bool" | HI8 -> "i8" | HI16 -> "i16" | HI32 -> "i32" | HI64 -> "i64" | HI128 -> "i128"
+  | HU8 -> "u8" | HU16 -> "u16" | HU32 -> "u32" | HU64 -> "u64" | HU128 -> "u128" | HF32 -> "f32"
+  | HF64 -> "f64" | HChar -> "char" | HStr -> "str" | HString -> "string" | HBytes -> "bytes"
+  | HByteBuf -> "bytebuf" | HIdentifier -> "identifier" | HUnit -> "unit"
+let rec show_target (t : dtarget) : string =
+  let many ts = String.concat "" (L.map (fun t -> " " ^ show_target t) ts) in
+  let fields fs = String.concat "" (L.map (fun (k, t) -> " (" ^ hex k ^ " " ^ show_target t ^ ")") fs) in
+  match t with
+  | TAny -> "any" | TIgnored -> "ignored" | THint h -> hint_name h
+  | TUnitStruct n -> "(unit_struct " ^ hex n ^ ")"
+  | TNewtypeStruct (n, t) -> "(newtype_struct " ^ hex n ^ " " ^ show_target t ^ ")"
+  | TOption t -> "(option " ^ show_target t ^ ")"
+  | TSeq t -> "(seq " ^ show_target t ^ ")"
+  | TTuple ts -> "(tuple" ^ many ts ^ ")"
+  | TTupleStruct (n, ts) -> "(tuple_struct " ^ hex n ^ many ts ^ ")"
+  | TMap (k, v) -> "(map " ^ show_target k ^ " " ^ show_target v ^ ")"
+  | TStruct (n, fs) -> "(struct " ^ hex n ^ fields fs ^ ")"
+  | TEnum (n, vs) ->
+      "(enum " ^ hex n ^
+      String.concat "" (L.map (fun (vn, p) -> match p with
+                                              | TVUnit -> " (unit " ^ hex vn ^ ")"
+                                              | TVNewtype t -> " (newtype " ^ hex vn ^ " " ^ show_target t ^ ")"
+                                              | TTuple ts -> " (tuple " ^ hex vn ^ many ts ^ ")"
+                                              | TStruct (_, fs) -> " (struct " ^ hex vn ^ fields fs ^ ")"
+                                              | _ -> failwith "bad variant payload") vs) ^ ")"
+  | TVUnit | TVNewtype _ -> failwith "payload target outside an enum"
+
 (* spec SCHEMA EVALUE -> (ok xENCODING xCANONICAL conforms layout_ok DVAL_ANY SVAL_PRESENT) *)
 let cmd_spec (a : sx list) : string =
   match a with
@@ -324,7 +352,9 @@ let cmd_spec (a : sx list) : string =
                 let b x = if x then "1" else "0" in
                 "(ok " ^ hex (encode_e fs root e) ^ " " ^ hex (spec_encode fs root v) ^ " "
                 ^ b (AvroValue.conforms fs root v) ^ " " ^ b (layout_ok e) ^ " "
-                ^ show_dval (Denote.dval_any fs root v) ^ " " ^ show_sval (Denote.present fs root v) ^ ")")
+                ^ show_dval (Denote.dval_any fs root v) ^ " " ^ show_sval (Denote.present fs root v) ^ " "
+                ^ show_target (Denote.typed_target fs (nat_of_int 12) root) ^ " "
+                ^ show_dval (Denote.dval_typed fs root v) ^ ")")
        | _ -> "(bad-schema)")
   | _ -> failwith "spec: arguments"
 
